@@ -37,8 +37,9 @@ MUTS_COMMUNITY = [
     "version-3",
     "trunc-1",
     "trunc-half",
+    "trunc-all",  # an empty datagram
 ]
-MUTS_COMMUNITY_REDUCED = ["rid+1", "rid=r*", "comm-case", "version-other", "trunc-1"]
+MUTS_COMMUNITY_REDUCED = ["rid+1", "rid=r*", "comm-case", "version-other", "trunc-1", "trunc-all"]
 MUTS_V3 = [
     "rid+1",
     "rid+2^32",
@@ -55,6 +56,7 @@ MUTS_V3 = [
     "version-1",
     "trunc-1",
     "trunc-half",
+    "trunc-all",
     "report",  # Report PDU keeping the message id of its request
     "report+rid0",  # ... not echoing the request-id (RFC 3412: 0 when the request could not be read)
     "report+msgid+1",
@@ -284,6 +286,8 @@ class Exec:
             msg = msg[:-1]
         elif m == "trunc-half":
             msg = msg[: len(msg) // 2]
+        elif m == "trunc-all":
+            msg = b""
         return msg
 
     def concrete_ids(self, d):
